@@ -30,8 +30,8 @@
     markup the code builds around the argument): for every string the computed facts are lexically
     sound ([C15_name_facts_ok_model], [C15_data_facts_ok_model], [C15_facts_ok15_model]), outside
     the decidable exclusions [KnownFacts] (Properties/C13.v: finding D04 seen through
-    create_processing_instruction, create_entity_reference and references inside attribute values;
-    the unchecked rest of create_entity_reference).  Likewise [C15_lex15_reachable_model_facts],
+    create_processing_instruction, create_entity_reference and references inside attribute values).
+    Likewise [C15_lex15_reachable_model_facts],
     [C15_edited_roundtrip_model_facts], [C15_edited_roundtrip_merged_model_facts]: the theorems
     below without [op_facts_ok] / [op_facts_ok15].  [C15_char_data_checks_model]: the validity checks
     that the model applies to the resulting string of every character-data edit ([valid_str]:
@@ -385,7 +385,7 @@ Print Assumptions C15_known15m_refuted.
 (** ** histories whose string facts are computed by the model of the parser (see the header and the
     last section of Properties/C13.v: [model_facts], [KnownFacts], [with_model_facts]) *)
 Theorem C15_name_facts_ok_model : forall s,
-  NameLanguage.KnownD04 s = false -> KnownRefLoose s = false -> name_facts_ok (facts_of_name s).
+  NameLanguage.KnownD04 s = false -> name_facts_ok (facts_of_name s).
 Proof. exact name_facts_ok_model. Qed.
 
 Theorem C15_data_facts_ok_model : forall s, DomFactsData.value_D04 s = false -> data_facts_ok (facts_of_data s).
